@@ -10,15 +10,6 @@ import StraxModel.Props.C08
 namespace Strax.Pipeline
 open Strax
 
-/-- the chunk `Plugin.iter` hands to `compute` for dependency `i` in call `c` -/
-def callChunk (deps : List Align.Dep) (i : Nat) (c : Align.Call) : Chunk :=
-  { dataType := ((deps[i]?).map (·.name)).getD "", kind := ((deps[i]?).map (·.kind)).getD "",
-    runId := some "0", start := c.start, stop := c.stop, rows := c.rowsOf i,
-    subruns := none, superrun := [], target := 0 }
-
-theorem streamsOfCalls_eq (deps : List Align.Dep) (calls : List Align.Call) :
-    streamsOfCalls deps calls = (List.range deps.length).map fun i => calls.map (callChunk deps i) := rfl
-
 /-- the domain of C08's theorems, as one decidable guard -/
 def iterGuardB (rid : String) (T0 T1 : Int) (deps : List Align.Dep) (ins : List (List Chunk)) : Bool :=
   (ins.length == deps.length) && Align.validInputsB rid ins && Align.startAtB T0 ins && Align.endAtB T1 ins
@@ -42,26 +33,26 @@ theorem sorted_of_flatMap {α : Type} (f : α → List Row) :
     · exact h.append_left
     · exact sorted_of_flatMap f l h.append_right c hc
 
-theorem rows_callStream (deps : List Align.Dep) (i : Nat) (calls : List Align.Call) :
-    rows (calls.map (callChunk deps i)) = calls.flatMap fun c => c.rowsOf i := by
+theorem rows_callStream (deps : List Align.Dep) (rid' : String) (tgts : List Nat) (i : Nat) (calls : List Align.Call) :
+    rows (calls.map (callChunk deps rid' tgts i)) = calls.flatMap fun c => c.rowsOf i := by
   induction calls with
   | nil => rfl
   | cons c cs ih => simp only [List.map_cons, rows_cons, List.flatMap_cons, ih]; rfl
 
-theorem bounds_callStream (deps : List Align.Dep) (i : Nat) (calls : List Align.Call) :
-    bounds (calls.map (callChunk deps i)) = calls.map fun c => (c.start, c.stop) := by
+theorem bounds_callStream (deps : List Align.Dep) (rid' : String) (tgts : List Nat) (i : Nat) (calls : List Align.Call) :
+    bounds (calls.map (callChunk deps rid' tgts i)) = calls.map fun c => (c.start, c.stop) := by
   simp [bounds, callChunk]
 
-theorem adjacent_callStream (deps : List Align.Dep) (i : Nat) :
+theorem adjacent_callStream (deps : List Align.Dep) (rid' : String) (tgts : List Nat) (i : Nat) :
     ∀ (T : Int) (calls : List Align.Call), Align.adjacentFrom T calls →
-      adjacentB (calls.map (callChunk deps i)) = true ∧
-        lastStop T (calls.map (callChunk deps i)) = Align.lastStop T calls ∧
+      adjacentB (calls.map (callChunk deps rid' tgts i)) = true ∧
+        lastStop T (calls.map (callChunk deps rid' tgts i)) = Align.lastStop T calls ∧
         ∀ c cs, calls = c :: cs → c.start = T
   | _, [], _ => ⟨rfl, rfl, fun _ _ h => by cases h⟩
   | T, [c], h => ⟨rfl, rfl, fun _ _ e => by cases e; exact h.1⟩
   | T, c :: d :: cs, h => by
     obtain ⟨h1, h2⟩ := h
-    obtain ⟨i1, i2, i3⟩ := adjacent_callStream deps i c.stop (d :: cs) h2
+    obtain ⟨i1, i2, i3⟩ := adjacent_callStream deps rid' tgts i c.stop (d :: cs) h2
     refine ⟨?_, ?_, fun _ _ e => by cases e; exact h1⟩
     · simp only [List.map_cons, adjacentB, Bool.and_eq_true, decide_eq_true_eq] at i1 ⊢
       exact ⟨by simp [callChunk, i3 d cs rfl], i1⟩
@@ -86,6 +77,8 @@ theorem iterAlignerG_spec (rid : String) (T0 T1 : Int) (deps : List Align.Dep) (
     | ok r =>
       simp only [hr, Except.ok.injEq] at h
       subst h
+      generalize ridOf ins = rid'
+      generalize targetsOf ins = tgts
       obtain ⟨hcne, hadj, hse, hlast, hrows⟩ := C08.calls_tile_run hlen hv hT he hr
       have hins := C08.rows_inside_call_dep hv hT hr
       -- the run range
@@ -108,11 +101,11 @@ theorem iterAlignerG_spec (rid : String) (T0 T1 : Int) (deps : List Align.Dep) (
         exact (hok cs (List.mem_of_getElem? hi)).1.rows_sorted
       -- one stream per dependency
       have hstream : ∀ i, i < deps.length →
-          LawAbiding (r.calls.map (callChunk deps i)) ∧ span (r.calls.map (callChunk deps i)) = some (T0, T1) := by
+          LawAbiding (r.calls.map (callChunk deps rid' tgts i)) ∧ span (r.calls.map (callChunk deps rid' tgts i)) = some (T0, T1) := by
         intro i hi
         have hi' : i < ins.length := by omega
         have hget : ins[i]? = some ins[i] := List.getElem?_eq_getElem hi'
-        obtain ⟨a1, a2, a3⟩ := adjacent_callStream deps i T0 r.calls hadj
+        obtain ⟨a1, a2, a3⟩ := adjacent_callStream deps rid' tgts i T0 r.calls hadj
         constructor
         · apply lawAbiding_of _ a1
           intro ch hch
@@ -125,7 +118,7 @@ theorem iterAlignerG_spec (rid : String) (T0 T1 : Int) (deps : List Align.Dep) (
           simp only [List.map_cons, span, Option.some.injEq, Prod.mk.injEq]
           simp only [List.map_cons, lastStop, Align.lastStop] at a2 hlast
           exact ⟨by simp [callChunk, a3 c cs rfl], by simp only [callChunk] at a2 ⊢; rw [a2, hlast]⟩
-      rw [streamsOfCalls_eq]
+      unfold streamsOfCalls
       refine ⟨⟨?_, ?_⟩, ?_⟩
       · intro s hs
         simp only [List.mem_map, List.mem_range] at hs
@@ -148,5 +141,117 @@ theorem iterAlignerG_spec (rid : String) (T0 T1 : Int) (deps : List Align.Dep) (
 /-- `Plugin.iter` as an `Aligner` (C08) -/
 def Aligner.iter (rid : String) (T0 T1 : Int) (deps : List Align.Dep) (strict : Bool) : Aligner :=
   Aligner.ofSpec (iterAlignerG rid T0 T1 deps strict) (iterAlignerG_spec rid T0 T1 deps strict)
+
+/-! ### plain streams out of `Plugin.iter` and a row-wise kernel -/
+
+/-- a uniformly annotated chunk: no sub-runs, default super-run entry of run `rid`, data type `dt`, target ≥ 1 -/
+def uniformB (rid dt : String) (c : Chunk) : Bool :=
+  c.subruns.isNone && (c.runId == some rid) && (c.superrun == [⟨rid, c.start, c.stop⟩]) && (c.dataType == dt) &&
+    decide (1 ≤ c.target)
+
+/-- a stream that obeys the laws of chunking here, starts at a non-negative time and is uniformly annotated is a
+plain stream in C07's sense (the converse of `lawAbiding_of_c07`) -/
+theorem c07_of_law {rid dt : String} : ∀ {s : List Chunk}, LawAbiding s → (∀ c ∈ s, 0 ≤ c.start) →
+    (∀ c ∈ s, uniformB rid dt c = true) → Strax.LawAbiding s = true
+  | [], _, _, _ => rfl
+  | c :: rest, hl, h0, hu => by
+    have hgood : c.good = true := by
+      obtain ⟨h1, h2, h3⟩ := (chunkOKB_iff c).1 hl.head
+      have hcu := hu c (by simp)
+      simp only [uniformB, Bool.and_eq_true, beq_iff_eq, decide_eq_true_eq, Option.isNone_iff_eq_none] at hcu
+      simp only [Chunk.good, Bool.and_eq_true]
+      refine ⟨(Chunk.wf_iff c).2 ⟨h0 c (by simp), h1, h3, fun r hr => (h2 r hr).2.1, fun r hr => ⟨(h2 r hr).1, (h2 r hr).2.2⟩⟩, ?_⟩
+      exact (Chunk.simple_iff c).2 ⟨hcu.1.1.1.1, rid, hcu.1.1.1.2, hcu.1.1.2⟩
+    rw [Strax.lawAbiding_cons]
+    refine ⟨hgood, ?_, c07_of_law hl.tail (fun x hx => h0 x (by simp [hx])) (fun x hx => hu x (by simp [hx]))⟩
+    intro b hb
+    cases rest with
+    | nil => simp at hb
+    | cons d rest' =>
+      simp only [List.head?_cons, Option.some.injEq] at hb
+      subst hb
+      have hadj := ((lawAbiding_cons_cons c d rest').1 hl).2.1
+      have hc := hu c (by simp)
+      have hd := hu d (by simp)
+      simp only [uniformB, Bool.and_eq_true, beq_iff_eq, decide_eq_true_eq] at hc hd
+      exact ⟨hadj, by rw [hc.1.2, hd.1.2], by rw [hc.1.1.1.2, hd.1.1.1.2]⟩
+
+theorem plain_of_law {rid dt : String} {s : List Chunk} (hl : LawAbiding s) (h0 : ∀ c ∈ s, 0 ≤ c.start)
+    (hu : ∀ c ∈ s, uniformB rid dt c = true) : plainStreamB s = true := by
+  simp only [plainStreamB, Bool.and_eq_true, List.all_eq_true, decide_eq_true_eq]
+  refine ⟨c07_of_law hl h0 hu, ?_⟩
+  intro c hc
+  have := hu c hc
+  simp only [uniformB, Bool.and_eq_true, decide_eq_true_eq] at this
+  exact this.2
+
+/-- all chunks of a law-abiding stream start at or after the start of the first -/
+theorem LawAbiding.starts_ge : ∀ {s : List Chunk} {R : Int × Int}, LawAbiding s → span s = some R → ∀ c ∈ s, R.1 ≤ c.start
+  | [], _, _, hs, _, _ => by simp [span] at hs
+  | x :: rest, R, hl, hs, c, hc => by
+    simp only [span, Option.some.injEq] at hs
+    subst hs
+    simp only [List.mem_cons] at hc
+    rcases hc with rfl | hc
+    · exact Int.le_refl _
+    · have := hl.after.2.1 c hc
+      have := ((chunkOKB_iff x).1 hl.head).1
+      simp only; omega
+
+/-- **totality of a two-dependency row-wise node behind `Plugin.iter`** (PARTIAL: dependencies of different kinds and
+`passesSufficeB`, i.e. outside D9).  On plain inputs of run `rid` inside the guard, the node succeeds and its output
+is again a plain stream (so that a rechunking edge or another `Plugin.iter` can follow). -/
+theorem iter_first_step_total_partial (rid : String) (T0 T1 : Int) (deps : List Align.Dep) (strict : Bool)
+    (g : Row → Option Row) (out : String) (hgi : IntervalPreserving g) (n : Node)
+    (hna : n.aligner = Aligner.iter rid T0 T1 deps strict) (hnk : n.kernel = firstKernel g out)
+    (a b : List Chunk) (hg : iterGuardB rid T0 T1 deps [a, b] = true)
+    (hpa : plainStreamB a = true) (hR : StreamsOK (T0, T1) [a, b])
+    (hk : (deps.map (fun d => d.kind)).Nodup) (hp : Align.passesSufficeB deps [a, b] strict = true) :
+    ∃ o, n.step [a, b] = .ok [o] ∧ plainStreamB o = true ∧ LawAbiding o ∧ span o = some (T0, T1) := by
+  have hg' := hg
+  simp only [iterGuardB, Bool.and_eq_true, beq_iff_eq] at hg'
+  obtain ⟨⟨⟨hlen, hv⟩, hT⟩, he⟩ := hg'
+  have hdeps : deps ≠ [] := by intro h0; subst h0; simp at hlen
+  obtain ⟨r, hr, -⟩ := C08.converges_partial hlen hdeps hv hT he hk hp
+  have hrun : (Aligner.iter rid T0 T1 deps strict).run [a, b] = .ok (streamsOfCalls deps (ridOf [a, b]) (targetsOf [a, b]) r.calls) := by
+    simp [Aligner.iter, Aligner.ofSpec, iterAlignerG, hg, iterAligner, hr]
+  obtain ⟨hal, -⟩ := (Aligner.iter rid T0 T1 deps strict).spec (by simp) hR hrun
+  have hl2 : deps.length = 2 := by simpa using hlen.symm
+  -- the aligned stream of the first dependency
+  have hs0 : streamsOfCalls deps (ridOf [a, b]) (targetsOf [a, b]) r.calls =
+      [r.calls.map (callChunk deps (ridOf [a, b]) (targetsOf [a, b]) 0),
+       r.calls.map (callChunk deps (ridOf [a, b]) (targetsOf [a, b]) 1)] := by
+    simp [streamsOfCalls, hl2, List.range_succ]
+  rw [hs0] at hrun hal
+  obtain ⟨hla, hsa⟩ := hal.1 (r.calls.map (callChunk deps (ridOf [a, b]) (targetsOf [a, b]) 0)) (by simp)
+  -- run id and target of the first input
+  obtain ⟨c0, rest0, rfl⟩ : ∃ c0 rest0, a = c0 :: rest0 := by
+    cases a with
+    | nil => simp [Align.validInputsB] at hv
+    | cons c0 rest0 => exact ⟨c0, rest0, rfl⟩
+  have hc0 : c0.runId = some rid ∧ 1 ≤ c0.target ∧ 0 ≤ c0.start ∧ c0.start = T0 := by
+    simp only [Align.validInputsB, List.all_cons, Bool.and_eq_true, beq_iff_eq] at hv
+    simp only [plainStreamB, Bool.and_eq_true, List.all_cons, decide_eq_true_eq] at hpa
+    have hgood : c0.good = true := ((Strax.lawAbiding_cons c0 rest0).1 hpa.1).1
+    simp only [Chunk.good, Bool.and_eq_true] at hgood
+    have hT' : Align.startAtB T0 [c0 :: rest0, b] = true := hT
+    simp only [Align.startAtB, List.all_cons, Bool.and_eq_true, decide_eq_true_eq] at hT'
+    exact ⟨hv.1.2, hpa.2.1, ((Chunk.wf_iff c0).1 hgood.1).1, hT'.1⟩
+  refine ⟨perChunk (List.filterMap g) out (r.calls.map (callChunk deps (ridOf [c0 :: rest0, b]) (targetsOf [c0 :: rest0, b]) 0)), ?_, ?_, ?_, ?_⟩
+  · simp [Node.step, hna, hnk, hrun, firstKernel]
+  · have hlo := lawAbiding_perChunk (f := List.filterMap g) (out := out) (fun c hc => chunkOK_filterMap hgi out c hc) hla
+    apply plain_of_law (rid := rid) (dt := out) hlo
+    · intro c hc
+      have hsp : span (perChunk (List.filterMap g) out (r.calls.map (callChunk deps (ridOf [c0 :: rest0, b]) (targetsOf [c0 :: rest0, b]) 0))) = some (T0, T1) := by
+        rw [span_perChunk]; exact hsa
+      have := hlo.starts_ge hsp c hc
+      simp only at this
+      omega
+    · intro c hc
+      simp only [perChunk, List.mem_map] at hc
+      obtain ⟨x, ⟨cl, -, rfl⟩, rfl⟩ := hc
+      simp [uniformB, setRows, callChunk, ridOf, targetsOf, hc0.1, hc0.2.1]
+  · exact lawAbiding_perChunk (fun c hc => chunkOK_filterMap hgi out c hc) hla
+  · rw [span_perChunk]; exact hsa
 
 end Strax.Pipeline
